@@ -2,6 +2,7 @@ package verifh
 
 import (
 	"fmt"
+	"math/big"
 	"net/url"
 	"reflect"
 	"strings"
@@ -323,7 +324,34 @@ var hostileStrings = []string{"", " ", "\x00", "\xff\xfe", "=", "========", "A",
 	"123456", "12345678", "6", "8", "10", "SHA1", "SHA256", "SHA512", "sha1", "MD5", "ſſſſſſſſ"}
 
 func drawStr(t *rapid.T, label string) ([]byte, bool) {
-	switch rapid.IntRange(0, 12).Draw(t, label+"K") {
+	switch rapid.IntRange(0, 13).Draw(t, label+"K") {
+	case 13: // a suite string the parser takes, made long by what it tolerates (repeated data-input tokens, a fourth ':' part of
+		// any text): lengths around 64, 128, 256, 1024 — tables, memos and fixed buffers keyed by the text have limits there
+		base := grammarSuite(t)
+		target := rapid.SampledFrom([]int{60, 64, 65, 66, 100, 127, 128, 129, 200, 255, 256, 257, 300, 1023, 1025, 5000}).Draw(t, label+"LT")
+		switch rapid.IntRange(0, 2).Draw(t, label+"LK") {
+		case 0: // repeat the first data-input token
+			i := strings.LastIndex(base, ":") + 1
+			tok := base[i:]
+			if j := strings.Index(tok, "-"); j >= 0 {
+				tok = tok[:j]
+			}
+			for len(base) < target {
+				base = base[:i] + tok + "-" + base[i:]
+			}
+		case 1: // repeat the last token
+			tok := base[strings.LastIndexAny(base, ":-")+1:]
+			for len(base) < target {
+				base += "-" + tok
+			}
+		default: // a fourth part
+			fill := rapid.SampledFrom([]string{"x", "100%", "-S064", ":", "\u00e9", " "}).Draw(t, label+"LF")
+			base += ":"
+			for len(base) < target {
+				base += fill
+			}
+		}
+		return []byte(base), true
 	case 10, 11: // text of multi-byte characters whose byte length and character count lie on different sides of a limit
 		// (16..1024): code that tests len(s) and then cuts []rune(s), or the reverse, loses step exactly there;
 		// alone (kind 10) or in place of one token of a suite string / URL (kind 11)
@@ -437,6 +465,16 @@ func drawC10(t *rapid.T) c10Case {
 		}
 	}
 	u64 := func(label string) uint64 {
+		if rapid.IntRange(0, 5).Draw(t, label+"W") == 0 {
+			// a value whose product with a unit constant (ns per s, ms per s, s per min ...) wraps around 2^64 or 2^63 into a
+			// small number: ceil(k * 2^64 / unit) + j
+			unit := rapid.SampledFrom([]uint64{1_000_000_000, 1_000_000, 1_000, 60, 3600, 30, 30_000_000_000, 86_400}).Draw(t, label+"WU")
+			k := uint64(rapid.IntRange(1, 6).Draw(t, label+"WK"))
+			top := new(big.Int).Lsh(big.NewInt(1), uint(rapid.SampledFrom([]int{64, 63}).Draw(t, label+"WB")))
+			v := new(big.Int).Mul(top, new(big.Int).SetUint64(k))
+			v.Add(v, new(big.Int).SetUint64(unit-1)).Div(v, new(big.Int).SetUint64(unit))
+			return v.Uint64() + uint64(rapid.IntRange(0, 2).Draw(t, label+"WJ"))
+		}
 		if rapid.Bool().Draw(t, label+"K") {
 			return rapid.SampledFrom([]uint64{0, 1, 2, 10, 11, 29, 30, 31, 1<<31 - 1, 1 << 31, 1<<32 - 1, 1 << 32, 1<<63 - 1, 1 << 63, 1<<64 - 1}).Draw(t, label+"B")
 		}
